@@ -960,6 +960,8 @@ def check_no_error_after_replace(run: Run, rule: str, mod, fi, cfg: CFG, R: int,
             continue
         seen.add(n)
         for s, lab in cfg.succ[n]:
+            if lab == "x" and _os_call_caught_locally(cfg, n, s):
+                continue  # an os.* call (raises OSError only) inside a try that catches OSError: outer handlers never see it
             if lab == "x":
                 # only exceptions that are turned into an error envelope matter here
                 # (what the handler itself does: a handler that swallows the exception and carries on is not an error
@@ -974,6 +976,28 @@ def check_no_error_after_replace(run: Run, rule: str, mod, fi, cfg: CFG, R: int,
         run.violation(rule, mod, fi.qualname, "error return after os.replace", "an error envelope can be returned after the new content was installed", line=cfg.nodes[r].lineno)
     for n in raising_after:
         run.violation(rule, mod, fi.qualname, cfg.nodes[n].ast or "?", "a statement that may raise follows os.replace inside the protected region: its failure is reported as a write error although the file was replaced")
+
+
+def _os_call_caught_locally(cfg: CFG, n: int, handler_node: int) -> bool:
+    """the statement at n only calls os.* functions (which raise OSError and nothing else on well-typed arguments) and sits in
+    a try whose own handler catches OSError / Exception; `handler_node` is a handler of an OUTER try"""
+    a = cfg.nodes[n].ast
+    if a is None:
+        return False
+    calls = [c for c in ast.walk(a) if isinstance(c, ast.Call)]
+    if not calls or not all(ast.unparse(c.func).startswith("os.") or (isinstance(c.func, ast.Name) and c.func.id == "getattr") for c in calls):
+        return False
+    cur = getattr(a, "_parent", None)
+    prev = a
+    while cur is not None and not isinstance(cur, (ast.FunctionDef, ast.AsyncFunctionDef)):
+        if isinstance(cur, ast.Try) and prev in cur.body and cur.handlers:
+            catches = any(h.type is None or any(nm in ast.unparse(h.type) for nm in ("OSError", "Exception", "BaseException", "IOError", "EnvironmentError")) for h in cur.handlers)
+            if catches:
+                own = cfg.nodes[handler_node].ast
+                return not any(own is h for h in cur.handlers)
+            return False
+        prev, cur = cur, getattr(cur, "_parent", None)
+    return False
 
 
 def _handler_outcomes(cfg: CFG, h: int, depth: int = 0) -> list[int]:
